@@ -31,11 +31,14 @@ pub struct Case {
     user: u8,
     /// tell the writer (direct auxv) that the program entry point lies in the first dlopen'ed module
     entry_in_lib: bool,
+    /// load a library, unlink it, create a DIFFERENT library at the same path and map that too:
+    /// two modules with the same (sanitised) path but different contents
+    replaced: bool,
 }
 
 impl Case {
     fn to_json(&self) -> Value {
-        json!({"dlopen": self.dlopen, "maps": self.maps.iter().map(|m| json!([m.0, m.1, m.2, m.3])).collect::<Vec<_>>(), "deleted": self.deleted, "user": self.user, "entry_in_lib": self.entry_in_lib})
+        json!({"dlopen": self.dlopen, "maps": self.maps.iter().map(|m| json!([m.0, m.1, m.2, m.3])).collect::<Vec<_>>(), "deleted": self.deleted, "user": self.user, "entry_in_lib": self.entry_in_lib, "replaced": self.replaced})
     }
     fn from_json(v: &Value) -> Option<Case> {
         Some(Case {
@@ -44,6 +47,7 @@ impl Case {
             deleted: v.get("deleted")?.as_bool()?,
             user: v.get("user")?.as_u64()? as u8,
             entry_in_lib: v.get("entry_in_lib").and_then(|b| b.as_bool()).unwrap_or(false),
+            replaced: v.get("replaced").and_then(|b| b.as_bool()).unwrap_or(false),
         })
     }
 }
@@ -57,6 +61,7 @@ struct Group {
     first_offset: u64,
     any_exec: bool,
     name: Vec<u8>, // sanitized (no " (deleted)")
+    deleted: bool,
 }
 
 fn groups(lines: &[Line]) -> Vec<Group> {
@@ -64,14 +69,14 @@ fn groups(lines: &[Line]) -> Vec<Group> {
     for l in lines {
         let Some(n) = l.clean_name() else { continue };
         if let Some(g) = out.last_mut() {
-            if g.name == n && g.end == l.start {
+            if g.name == n && g.end == l.start && g.deleted == l.name.as_ref().map(|x| x.ends_with(b" (deleted)")).unwrap_or(false) {
                 g.end = l.end;
                 g.end_with_gap = l.end;
                 g.any_exec |= l.executable();
                 continue;
             }
         }
-        out.push(Group { start: l.start, end: l.end, end_with_gap: l.end, first_offset: l.offset, any_exec: l.executable(), name: n });
+        out.push(Group { start: l.start, end: l.end, end_with_gap: l.end, first_offset: l.offset, any_exec: l.executable(), name: n, deleted: l.name.as_ref().map(|x| x.ends_with(b" (deleted)")).unwrap_or(false) });
     }
     for g in out.iter_mut() {
         if g.any_exec && g.name.contains(&b'/') {
@@ -116,6 +121,18 @@ pub fn run_case(c: &Case) -> (Vec<(String, String)>, usize) {
         let _ = p.cmd(&format!("dlopen {}", mdv_core::hex(path.as_bytes())));
         saved_content.push((path.clone(), std::fs::read(&path).unwrap_or_default()));
         let _ = std::fs::remove_file(&path);
+    }
+    if c.replaced {
+        let path = format!("{dir}/libreplaced.so");
+        let _ = std::fs::copy(format!("{FIX}/libfix_sha1.so"), &path);
+        let _ = p.cmd(&format!("dlopen {}", mdv_core::hex(path.as_bytes())));
+        saved_content.push((path.clone(), std::fs::read(&path).unwrap_or_default()));
+        let _ = std::fs::remove_file(&path);
+        // something in between so that the two images are not neighbours
+        let _ = p.pattern(1, "hole", "rw");
+        let _ = std::fs::copy(format!("{FIX}/libfix_8.so"), &path);
+        // (dlopen would hand back the already loaded object of that name: map the new file directly)
+        let _ = p.mapfile(path.as_bytes(), 0, 12288, "rx");
     }
     for (f, off, len, prot) in &c.maps {
         let path = format!("{FIX}/{f}");
@@ -174,7 +191,7 @@ pub fn run_case(c: &Case) -> (Vec<(String, String)>, usize) {
         let path = String::from_utf8_lossy(&g.name).into_owned();
         let image: Vec<u8> = if g.name == b"[vdso]" {
             p.read(g.start, size as usize)
-        } else if let Some((_, content)) = saved_content.iter().find(|(pth, _)| pth == &path) {
+        } else if let Some((_, content)) = saved_content.iter().find(|(pth, _)| pth == &path).filter(|_| g.deleted) {
             content.clone()
         } else {
             let all = std::fs::read(&path).unwrap_or_default();
@@ -269,10 +286,10 @@ fn menu(thorough: bool) -> Vec<Case> {
             if !thorough && user >= 2 && l != "libfix_sha1.so" && l != "libfix_none.so" {
                 continue;
             }
-            v.push(Case { dlopen: vec![l.to_string()], maps: vec![], deleted: false, user, entry_in_lib: false });
+            v.push(Case { dlopen: vec![l.to_string()], maps: vec![], deleted: false, user, entry_in_lib: false, replaced: false });
         }
         // all together + deleted + raw mappings
-        v.push(Case { dlopen: libs.iter().map(|s| s.to_string()).collect(), maps: vec![], deleted: true, user, entry_in_lib: false });
+        v.push(Case { dlopen: libs.iter().map(|s| s.to_string()).collect(), maps: vec![], deleted: true, user, entry_in_lib: false, replaced: false });
     }
     let raw: Vec<(String, u64, u64, String)> = vec![
         ("libfix_sha1.so".into(), 0, 8192, "r".into()),
@@ -285,18 +302,20 @@ fn menu(thorough: bool) -> Vec<Case> {
         ("libfix_nosoname.so".into(), 4096, 4096, "r".into()),
     ];
     for m in &raw {
-        v.push(Case { dlopen: vec![], maps: vec![m.clone()], deleted: false, user: 0, entry_in_lib: false });
+        v.push(Case { dlopen: vec![], maps: vec![m.clone()], deleted: false, user: 0, entry_in_lib: false, replaced: false });
     }
-    v.push(Case { dlopen: vec!["libfix_sha1.so".into()], maps: raw.clone(), deleted: true, user: 1, entry_in_lib: false });
-    v.push(Case { dlopen: vec![], maps: vec![], deleted: true, user: 0, entry_in_lib: false });
+    v.push(Case { dlopen: vec!["libfix_sha1.so".into()], maps: raw.clone(), deleted: true, user: 1, entry_in_lib: false, replaced: false });
+    v.push(Case { dlopen: vec![], maps: vec![], deleted: true, user: 0, entry_in_lib: false, replaced: false });
+    v.push(Case { dlopen: vec![], maps: vec![], deleted: false, user: 0, entry_in_lib: false, replaced: true });
+    v.push(Case { dlopen: vec!["libfix_nosoname.so".into()], maps: vec![], deleted: true, user: 1, entry_in_lib: false, replaced: true });
     for l in ["libfix_sha1.so", "libfix_none.so", "lib with space.so"] {
-        v.push(Case { dlopen: vec![l.to_string(), "libfix_8.so".into()], maps: vec![], deleted: false, user: 0, entry_in_lib: true });
+        v.push(Case { dlopen: vec![l.to_string(), "libfix_8.so".into()], maps: vec![], deleted: false, user: 0, entry_in_lib: true, replaced: false });
     }
     v
 }
 
 pub fn run(ctx: &Ctx, rep: &mut Report) {
-    rep.rule = "menu: 9 fixture libraries (build id sha1 / 8 bytes / none / all-zero, with/without SONAME, names with spaces / non-ASCII / .so.N suffixes) dlopen'ed alone and together, a library unlinked after loading, whole-file and offset mappings of ELF / non-ELF / truncated / archive-embedded images, each under 6 user-mapping lists (none, disjoint, containing, partially overlapping, two entries in descending / ascending order); plus the puppet binary, libc, ld.so and the vDSO in every case. nontrivial = cases whose expected module list has at least 4 entries".into();
+    rep.rule = "menu: 9 fixture libraries (build id sha1 / 8 bytes / none / all-zero, with/without SONAME, names with spaces / non-ASCII / .so.N suffixes) dlopen'ed alone and together, a library unlinked after loading, a library replaced on disk by a different one at the same path with both mapped, whole-file and offset mappings of ELF / non-ELF / truncated / archive-embedded images, each under 6 user-mapping lists (none, disjoint, containing, partially overlapping, two entries in descending / ascending order); plus the puppet binary, libc, ld.so and the vDSO in every case. nontrivial = cases whose expected module list has at least 4 entries".into();
     rep.assume("shapes whose expected treatment the statement leaves open (a non-executable mapping at a non-zero offset) are in the menu only as 'must not produce a wrong module', never as 'must be listed'");
     if let Some(case) = &ctx.replay {
         let Some(c) = Case::from_json(case) else {
